@@ -20,7 +20,7 @@ DECIDES = ('for the dict formats (JSON/YAML/cfg share them): every key the impor
            'weighted -> (x,y,z,w) in the writer and (x,y,z,w) -> weighted in the reader through an inverse converter pair (WV1); text/CSV: '
            'row = u, column = v with canonical stride on export and (points, size_u, size_v) from (line count, column count) on import, '
            'separators decided by a same-direction comparison (LY1, TX1, AX5); the 2-D control point file helpers apply the helper they are named after to the array they read (FH1) and pass sizes that match the '
-           'array they save (LY3f). exporters walk containers through the iteration protocol, which rewinds on every __iter__ and yields each element once (IT1).')
+           'array they save (LY3f). exporters walk containers through the iteration protocol, which rewinds on every __iter__ and yields each element once (IT1). the knot vectors read from a file reach the imported shape unchanged only if that shape does not re-normalise them (IM1: known finding on the pinned tree for all five importers - shapes with un-normalised knot vectors come back normalised).')
 NOT_DECIDED = 'equality up to printed precision, float formatting/parsing, third-party serialisers (json/yaml/libconf) and file I/O; freeform/evaluated data.'
 TECHNIQUE = 'writer/reader key-set and record-table agreement, abstract interpretation of layouts through the file, weight-form typestate'
 
@@ -41,6 +41,7 @@ def check(m, run):
     file_helpers(m, run)
     wrappers(m, run)
     guard_keys(m, run)
+    im1(m, run)
     aggregate_after_loop(m, run)
     from . import c10
     c10.iteration(m, run)
@@ -81,6 +82,28 @@ def aggregate_after_loop(m, run):
     if [x[2] for x in findings(ctl)] != [True]:
         raise AnalysisError('AGG1 positive control not reported: rule is broken')
     run.ob('AGG1.collected-list-handed-over-after-its-loop', '_exchange', True, '%d hand-overs of collected lists found; positive control reported' % n)
+
+
+def im1(m, run):
+    """IM1: the knot vectors read from a file reach the imported shape unchanged: the shape an importer fills is created with
+    normalize_kv=False (directly or through a flag read from the data) - a default-constructed shape re-normalises every knot vector it is
+    given, so a shape exported with un-normalised knot vectors comes back with other knot vectors (same geometry, other parametrisation)"""
+    n = 0
+    for key in ('_exchange.import_dict_crv', '_exchange.import_dict_surf', '_exchange.import_dict_vol', '_exchange.import_surf_mesh', '_exchange.import_vol_mesh'):
+        fi = m.func(key)
+        ctor = [a for a in walk_no_nested(fi.node) if isinstance(a, ast.Assign) and isinstance(a.value, ast.Call) and
+                (norm(a.value.func).startswith('shortcuts.generate_') or norm(a.value.func).split('.')[-1] in ('Curve', 'Surface', 'Volume'))]
+        kvs = [a for a in walk_no_nested(fi.node) if isinstance(a, ast.Assign) and isinstance(a.targets[0], ast.Attribute) and a.targets[0].attr.startswith('knotvector')]
+        if not ctor or not kvs:
+            raise AnalysisError('%s: shape construction / knot vector assignment not found' % key)
+        n += 1
+        c = ctor[0].value
+        keeps = any(k.arg == 'normalize_kv' for k in c.keywords)
+        run.ob('IM1.imported-knot-vectors-are-stored-unchanged', key, keeps,
+               'the shape is created with an explicit normalize_kv' if keeps else
+               '`%s` creates a shape with the default normalize_kv=True and then assigns the knot vectors of the file: a shape that was exported with '
+               'un-normalised knot vectors is imported with normalised ones (the formats carry no normalisation flag)' % norm(c), site(fi, ctor[0]))
+    return n
 
 
 def guard_keys(m, run):
